@@ -28,6 +28,7 @@ type Config struct {
 	LogSMT      string // file prefix for SMT logs (debug)
 	StopOnFirst bool   // stop exploring after first violation
 	CrossCheck  string // second solver to re-ask every unsat assertion (thorough)
+	Concrete    []ReplayVal // concrete mode: nondets are read from this vector
 }
 
 func DefaultConfig() Config {
@@ -116,6 +117,7 @@ type PathResult struct {
 	Steps     int
 	Forks     [][]int // new prefixes discovered
 	Sample    string
+	Trace     []string
 }
 
 // interpreter is per-worker; path state is reset by resetPath.
@@ -166,6 +168,11 @@ type interpreter struct {
 	callLog map[*ssa.Function]int // per worker, cumulative
 
 	inInit         int
+	known          map[int]bool
+	concPos        int
+	trace          []string
+	regexps        map[*value]*reClass
+	regexpsSeen    map[string]int
 	directInit     *ssa.Function
 	curFrame       *frame
 	nonASCIITotal  int
@@ -196,6 +203,10 @@ func (i *interpreter) resetPath(prefix []int) {
 	i.nonASCIITotal += i.nonASCII
 	i.nonASCII = 0
 	i.logPoints = nil
+	i.known = map[int]bool{}
+	i.concPos = 0
+	i.trace = nil
+	i.regexps = nil
 	i.powPoints = nil
 	i.symAllocs = nil
 	i.hugeAllocs = nil
@@ -217,9 +228,32 @@ func (i *interpreter) assume(c *Term) {
 		return
 	}
 	i.pc = append(i.pc, c)
+	i.noteKnown(c, true)
 	i.solver.Assert(c)
 	if i.xsolver != nil {
 		i.xsolver.Assert(c)
+	}
+}
+
+// noteKnown records truth values implied syntactically by an assumed term.
+func (i *interpreter) noteKnown(c *Term, v bool) {
+	if c.IsConst() {
+		return
+	}
+	i.known[c.ID] = v
+	switch c.Op {
+	case OpNot:
+		i.noteKnown(c.Args[0], !v)
+	case OpAnd:
+		if v {
+			i.noteKnown(c.Args[0], true)
+			i.noteKnown(c.Args[1], true)
+		}
+	case OpOr:
+		if !v {
+			i.noteKnown(c.Args[0], false)
+			i.noteKnown(c.Args[1], false)
+		}
 	}
 }
 
@@ -227,6 +261,10 @@ func (i *interpreter) assume(c *Term) {
 func (i *interpreter) decide(c *Term, why string) bool {
 	if c.IsConst() {
 		return c.C == 1
+	}
+	if v, ok := i.known[c.ID]; ok {
+		// implied by the path condition syntactically: no fork, no decision slot
+		return v
 	}
 	pos := len(i.decisions)
 	if pos < len(i.prefix) {
@@ -548,6 +586,7 @@ func (i *interpreter) runPath(entry *ssa.Function, prefix []int) (res *PathResul
 		res.Asserts, res.Syntactic, res.Solver = i.asserts, i.syntactic, i.solved
 		res.Steps = i.steps
 		res.Forks = i.forks
+		res.Trace = i.trace
 		if res.Status == "ok" || res.Status == "panic" {
 			res.Sample = i.samplePath()
 		}
@@ -786,6 +825,20 @@ func (p *Program) Explore(fn *ssa.Function, cfg Config) *HarnessReport {
 	return rep
 }
 
+// RunConcrete executes harness fn once with the given vector (translator validation / debugging).
+func (p *Program) RunConcrete(fn *ssa.Function, cfg Config, vec []ReplayVal) *PathResult {
+	cfg.Concrete = vec
+	if cfg.Concrete == nil {
+		cfg.Concrete = []ReplayVal{}
+	}
+	i, err := p.newInterp(&cfg, fn.Name(), 0)
+	if err != nil {
+		return &PathResult{Status: "internal", Msg: err.Error()}
+	}
+	defer i.close()
+	return i.runPath(fn, nil)
+}
+
 func (p *Program) newInterp(cfg *Config, harness string, id int) (*interpreter, error) {
 	st := NewTermStore()
 	s, err := NewSolver(cfg.Solver, st, cfg.TimeoutMs)
@@ -798,7 +851,7 @@ func (p *Program) newInterp(cfg *Config, harness string, id int) (*interpreter, 
 	}
 	i := &interpreter{prog: p.Prog, cfg: cfg, st: st, solver: s, sizes: p.Sizes, harnessName: harness,
 		shared: map[*ssa.Global]*value{}, sharedInit: map[*ssa.Package]bool{},
-		callLog: map[*ssa.Function]int{}, fixedRangeSites: map[string]int{}}
+		callLog: map[*ssa.Function]int{}, fixedRangeSites: map[string]int{}, regexpsSeen: map[string]int{}}
 	if cfg.CrossCheck != "" {
 		x, err := NewSolver(cfg.CrossCheck, st, cfg.TimeoutMs)
 		if err != nil {
